@@ -263,6 +263,9 @@ class Gen:
         if self.o["markers"] and not self.macro_stack and not self.in_fill \
                 and not self.in_translate and ch.coin(0.35):
             parts.append(["var", ch.pick(["w0", "w1", "g0", "g1"])])
+            if ch.coin(0.3):
+                # on-error's variable is there for the fallback only
+                parts.append(["errvar"])
         return {"t": "text", "parts": parts}
 
     def _repeat_part(self, parts: list) -> None:
@@ -644,6 +647,8 @@ class Ser:
                 self.w("${(%s.append(1), len(%s))[1]}" % (p[1], p[1]))
             elif p[0] == "var":
                 self.w("${%s | 'unset'}" % p[1])
+            elif p[0] == "errvar":
+                self.w("${error.type.__name__ | 'noerr'}")
             else:
                 self.w("${structure: ")
                 self.expr(p[1], "interp")
